@@ -191,3 +191,44 @@ def jinja_literal(v):
     if isinstance(v, list):
         return "[" + ", ".join(jinja_literal(x) for x in v) + "]"
     raise ValueError(type(v).__name__)
+
+
+def merge_modules(parts):
+    """One generated .v file out of several (module name, text) parts: the Require / Import / Open Scope
+    lines are hoisted to the top (a Require inside a module is not allowed), each part's remaining text
+    goes into its own Module so that equal helper names do not clash.  One coqc run instead of several."""
+    head, bodies = [], []
+    for mod, text in parts:
+        body = []
+        for line in text.splitlines():
+            st = line.strip()
+            if st.startswith(("From ", "Import ", "Open Scope", "Require ")) and st.endswith("."):
+                for piece in [x.strip() + "." for x in st.split(". ") if x.strip()]:
+                    piece = piece.replace("..", ".")
+                    if piece not in head:
+                        head.append(piece)
+            else:
+                body.append(line)
+        bodies.append(f"Module {mod}.\n" + "\n".join(body) + f"\nEnd {mod}.\n")
+    return "\n".join(head) + "\n\n" + "\n".join(bodies)
+
+
+class Background:
+    """run the coqc part of a check (proof re-check + regenerated obligations) while the Python side
+    runs the correspondence; join() re-raises what the thread raised"""
+    def __init__(self, fn):
+        import threading
+        self.err = None
+
+        def go():
+            try:
+                fn()
+            except BaseException as e:  # noqa: BLE001
+                self.err = e
+        self.t = threading.Thread(target=go, daemon=True)
+        self.t.start()
+
+    def join(self):
+        self.t.join()
+        if self.err is not None:
+            raise self.err
